@@ -8,6 +8,7 @@ first, then the oldest I/O, then timers"); any other option is a *deviation*.
 from __future__ import annotations
 
 import asyncio
+import gc
 import heapq
 import itertools
 import threading
@@ -311,9 +312,18 @@ class VLoop(asyncio.BaseEventLoop):
         return out
 
     def dispose(self):
-        for t in asyncio.all_tasks(self):
-            if not t.done():
-                t._log_destroy_pending = False
+        # Close the coroutines of tasks left pending NOW (deterministically), instead of whenever the garbage
+        # collector finds them: their ``finally``/``except`` blocks would otherwise run in the middle of a later
+        # execution of the same worker process (cross-execution interference = un-owned nondeterminism).
+        for t in self.pending_tasks():
+            t._log_destroy_pending = False
+            coro = t.get_coro()
+            for _ in range(3):
+                try:
+                    coro.close()
+                    break
+                except BaseException:  # noqa -- "coroutine ignored GeneratorExit" etc.
+                    continue
         self._ready.clear()
         self._scheduled.clear()
         self.gates.clear()
@@ -345,9 +355,42 @@ class Execution:
         self.obs = None
 
 
+_gc_frozen = False
+
+
+def _gc_begin():
+    """Own the garbage collector: everything allocated before the first execution is frozen (never scanned again),
+    automatic collection is off while an execution runs, and a full collection runs right after it.  Finalizers of
+    one execution's garbage (pending coroutines, 'exception never retrieved' reports) therefore run at a fixed
+    point, never in the middle of a later execution."""
+    global _gc_frozen
+    if not _gc_frozen:
+        gc.collect()
+        gc.freeze()
+        _gc_frozen = True
+    gc.disable()
+
+
+def _gc_end():
+    try:
+        gc.collect()
+    finally:
+        gc.enable()
+
+
 def execute(main_factory, prefix=(), *, step_limit=2_000_000, keep_labels=False, timers_optional=True,
             wait_perm=True, keep_events=False, idle_only=False):
     """Run ``main_factory(loop)`` (returns a coroutine) under a fresh VLoop replaying ``prefix``."""
+    _gc_begin()
+    try:
+        return _execute(main_factory, prefix, step_limit=step_limit, keep_labels=keep_labels,
+                        timers_optional=timers_optional, wait_perm=wait_perm, keep_events=keep_events,
+                        idle_only=idle_only)
+    finally:
+        _gc_end()
+
+
+def _execute(main_factory, prefix, *, step_limit, keep_labels, timers_optional, wait_perm, keep_events, idle_only):
     ctl = Controller(prefix, keep_labels=keep_labels)
     loop = VLoop(ctl, step_limit=step_limit, timers_optional=timers_optional, wait_perm=wait_perm,
                  idle_only=idle_only)
